@@ -775,6 +775,12 @@ func (sc *serverConn) closeStream(st *stream, err error) {
 	}
 	delete(sc.streams, st.id)
 	if p := st.body; p != nil {
+		// Return the session-level flow control of the bytes that are
+		// buffered but were never read by the handler, otherwise the
+		// session window shrinks for good with every request whose body
+		// is not consumed.
+		sc.sendWindowUpdate(nil, p.Len())
+
 		p.CloseWithError(err)
 		p.Release(&fixBufferPool)
 	}
